@@ -32,7 +32,7 @@ var importMap = map[string]string{
 }
 
 type Stats struct {
-	Files, Imports, GoStmts, ChanOps, MemPoints, MapRanges, CaptPoints int
+	Files, Imports, GoStmts, ChanOps, MemPoints, MapRanges, CaptPoints, TxPoints int
 }
 
 // Identifiers (struct fields, variables, parameters) declared with a map type somewhere in the
@@ -549,6 +549,36 @@ func (r *rewriter) rewriteSelect(x *ast.SelectStmt) ast.Stmt {
 	return &ast.IfStmt{Cond: cond, Body: &ast.BlockStmt{List: []ast.Stmt{orig}}, Else: pre}
 }
 
+// txCall: the statement calls <x>.db.View / Update / Batch / Begin (a bbolt transaction), not counting
+// calls inside nested function literals or nested blocks (those statements are visited on their own).
+func txCall(s ast.Stmt) bool {
+	switch s.(type) {
+	case *ast.AssignStmt, *ast.ExprStmt, *ast.ReturnStmt, *ast.DeclStmt:
+	default:
+		return false
+	}
+	found := false
+	ast.Inspect(s, func(n ast.Node) bool {
+		switch x := n.(type) {
+		case *ast.FuncLit:
+			return false
+		case *ast.CallExpr:
+			if sel, ok := x.Fun.(*ast.SelectorExpr); ok {
+				switch sel.Sel.Name {
+				case "View", "Update", "Batch", "Begin":
+					if in, ok := sel.X.(*ast.SelectorExpr); ok && in.Sel.Name == "db" {
+						found = true
+					} else if id, ok := sel.X.(*ast.Ident); ok && id.Name == "db" {
+						found = true
+					}
+				}
+			}
+		}
+		return true
+	})
+	return found
+}
+
 func (r *rewriter) memTarget(e ast.Expr) bool {
 	switch x := e.(type) {
 	case *ast.SelectorExpr, *ast.IndexExpr, *ast.StarExpr:
@@ -591,6 +621,13 @@ func (r *rewriter) stmts(list []ast.Stmt) []ast.Stmt {
 					out = append(out, r.memPoint(x.Pos()))
 				}
 			}
+		}
+		if txCall(s) {
+			// a database transaction begins here: a scheduling point in front of it (the database's own lock is
+			// outside the instrumented code, so two transactions of one call would otherwise be atomic together)
+			r.st.TxPoints++
+			r.needVrt = true
+			out = append(out, &ast.ExprStmt{X: vrtCall("TxPoint", strLit(r.site(s.Pos())))})
 		}
 		if objs, writes := r.capUses(s); len(objs) > 0 {
 			for _, o := range objs {
